@@ -165,6 +165,18 @@ def main(argv=None):
     else:
         obligations += len(getattr(spec, "RUN_FILES", [])) + 1
     log("prove: %d/%d obligations discharged" % (discharged, obligations))
+    if tier == "thorough" and ok:
+        # independent re-check of the compiled property file and everything it depends on
+        logical = "SAV." + props_rel[:-2].replace("/", ".")
+        rc, out = run(["coqchk", "-silent", "-o", "-Q", COQ, "SAV", logical], 3000, cwd=COQ)
+        ev_cov["coqchk"] = {"cmd": "coqchk -silent -o -Q coq SAV " + logical, "rc": rc, "summary": out[-1200:]}
+        obligations += 1
+        if rc == 0:
+            discharged += 1
+            log("coqchk: %s re-checked" % logical)
+        else:
+            broken.append({"phase": "prove", "name": "coqchk " + logical, "detail": out[-3000:]})
+            log("coqchk: FAILED")
 
     # ---- 3. correspond ----
     rng = random.Random(seed * 1000003 + 17)
@@ -377,6 +389,12 @@ def do_replay(spec, spec_mod, pid, path, bdir, findings):
     print("# input: %s" % json.dumps(c)[:2000])
     print("# observed: %s" % json.dumps(r)[:2000])
     if r.get("viol"):
+        fid = spec.match_finding(c, r["viol"]) if hasattr(spec, "match_finding") else None
+        ent = next((e for e in findings if e["id"] == fid), None) if fid else None
+        if ent is not None and ent.get("status") == "known":
+            print("KNOWN-FINDING: property=%s %s [%s]" % (pid, ent.get("what", r["viol"]), fid))
+            print("RESULT property=%s status=pass (the recorded input reproduces a listed known finding)" % pid)
+            return 0
         print("VIOLATION property=%s replay=%s" % (pid, path))
         return 1
     print("RESULT property=%s status=pass (the recorded input no longer fails)" % pid)
